@@ -18,7 +18,7 @@
    numpy primitives, last_rmse / num_mcmc_steps bookkeeping, the non-default option branches. *)
 From Coq Require Import String.
 From Coq Require Import ZArith List QArith Qcanon Bool.
-From Batchie Require Import Lib.Num Generated.Consts.
+From Batchie Require Import Lib.Num Generated.Consts Generated.ConstsMcmc.
 Import ListNotations.
 Open Scope Qc_scope.
 
@@ -336,7 +336,7 @@ Definition step_prog (b : blk) (s : st) : prog :=
   | BPrecV1 => prog_prec_V1 s
   | BPrecW => prog_prec_W s
   end.
-(* the order of mcmc_step (proved equal to Generated.Consts.MCMC_STEP_ORDER) *)
+(* the order of mcmc_step (proved equal to Generated.ConstsMcmc.MCMC_STEP_ORDER) *)
 Definition step_order : list blk :=
   [BReconstruct; BAlpha; BW0; BV0; BW; BV2; BV1; BPrecW0; BPrecV0; BPrecObs; BPrecV2; BPrecV1; BPrecW].
 Definition run_blocks (bs : list blk) (s : st) : prog :=
